@@ -63,7 +63,8 @@ META = {
         "in-place replacement puts the message into titles/paragraphs (document title, toc) and is a violation. Whenever the raw node is "
         "removed, a field_name it leaves empty is refilled: after the removal, `if isinstance(P, field_name) and not P.children: "
         "P.append(...)` with P the parent captured before the removal and no further condition (DocInfo reads field[0][0]). "
-        "The climb may live in a helper `a = anchor_of(node)` that returns the climbed node. "
+        "The climb may live in a helper `a = anchor_of(node)` that returns the climbed node. The guard and the sweep may be split: "
+        "`if not raw_enabled: sweep(document)` with an unguarded helper is judged as guard (at the call site) plus sweep (in the helper). "
         "R2: no function reachable from a registered transform / post-transform / Sphinx event handler, or from what the entry calls "
         "after the filter, constructs nodes.raw (directly, through an alias or a package subclass); every construction is in a "
         "render-phase function or unreachable. Reachability includes the renderer's dynamic dispatch wherever it is written. "
@@ -700,10 +701,51 @@ class Filter:
             info = self._raw_iter(lp)
             if info is not None:
                 cands.append((lp, info))
+        if not cands and self.corpus is not None:
+            # the guard stays at the call site and the sweep lives in an (unguarded) helper:
+            # `if not raw_enabled: remove_raw_nodes(document)` - the helper's body is the guarded branch
+            g = get_callgraph(self.corpus)
+            for st_ in [n for n in cfg.nodes if isinstance(n, ast.stmt) and not isinstance(n, (ast.If, ast.For, ast.While, ast.Try, ast.With)) and cfg.dominates(edge, n) and cfg.postdominates(n, edge)]:
+                for c_ in calls_in(st_, into_lambdas=False):
+                    ts_ = g.resolve_call(c_, fi)
+                    if len(ts_) != 1 or not isinstance(ts_[0], FunctionInfo) or ts_[0].is_lambda or ts_[0].fq == fi.fq:
+                        continue
+                    h_ = ts_[0]
+                    off_ = 1 if h_.cls is not None and h_.params and h_.params[0] in ("self", "cls") else 0
+                    proot = None
+                    for i_, a_ in enumerate(c_.args):
+                        if unparse(_deref(a_, fi)) == self.root and i_ + off_ < len(h_.params):
+                            proot = h_.params[i_ + off_]
+                    for kw_ in c_.keywords:
+                        if kw_.arg and unparse(_deref(kw_.value, fi)) == self.root:
+                            proot = kw_.arg
+                    if proot is None:
+                        continue
+                    hcfg = get_cfg(h_)
+                    saved_fi = self.fi
+                    self.fi = h_
+                    hl = [(n, self._raw_iter(n)) for n in h_.local_nodes() if isinstance(n, ast.For) and n in hcfg.succ]
+                    hl = [(n, i) for n, i in hl if i is not None]
+                    if not hl:
+                        self.fi = saved_fi
+                        continue
+                    # from here on the helper is the function under analysis, its entry the guarded edge
+                    self.notes.append((f"the sweep runs in {h_.qualname}(), called under this guard", c_))
+                    fi, cfg, edge = h_, hcfg, "ENTRY"
+                    self.root = proot
+                    loops = [n for n, _ in hl]
+                    cands = hl
+                    break
+                if cands:
+                    break
         if not cands:
             trav = [lp for lp in loops if "traverse" in unparse(lp.iter) or "findall" in unparse(lp.iter)]
             if trav:
                 self.problems.append(("coverage", f"the filter loop `for ... in {short(trav[0].iter, 60)}` does not enumerate docutils.nodes.raw", trav[0]))
+                return
+            region_stmts = [n for n in cfg.nodes if isinstance(n, ast.stmt) and cfg.dominates(edge, n) and ifn.lineno <= getattr(n, "lineno", 0) <= ifn.end_lineno]
+            if edge[0] in ("T", "F") and not any(isinstance(x, (ast.Call, ast.For, ast.While)) for n in region_stmts for x in ast.walk(n)):
+                self.problems.append(("coverage", "the branch taken when raw content is disabled neither sweeps the raw nodes nor calls anything that does: every raw node survives", ifn))
                 return
             raise Unsupported(f"{fi.module.site(ifn)}: no loop over nodes.raw found under the raw_enabled test (rewritten in an unknown idiom)")
         if len(cands) > 1:
@@ -1553,10 +1595,14 @@ def _registered_nodes_swept(corpus: Corpus, rep: Report, late: list[tuple[Functi
     filters = corpus._cache.get("c20-filters")
     if filters is None:
         return  # R1 could not analyse the filters (reported there)
+    seen_keys: set[str] = set()
     for reg in required:
         f, n = reattached[reg]
         for flt in filters:
             k = f"{flt.fi.fq}|raw filter|also sweeps document.{reg}"
+            if k in seen_keys:
+                continue  # two call sites of one sweeping helper
+            seen_keys.add(k)
             site = flt.fi.module.site(flt.loop or flt.ifnode)
             if reg in flt.swept_registries:
                 rep.ok("C20.R2", k, site, f"registered by {filled[reg]}, re-attached by {f.qualname}")
